@@ -6,7 +6,7 @@ LEVEL = "proof"
 CONTRACT_MODULES = ["contracts.c11", "contracts.c03"]
 R = "batchie.retrospective."
 CARRIERS = ["batchie.data.Screen.combine", "batchie.data.Screen.concat", "batchie.core.RetrospectivePlateGenerator.generate_plates",
-            "batchie.core.RetrospectivePlateSmoother.smooth_plates", R + "PlatePermutationPlateGenerator._generate_plates",
+            "batchie.core.RetrospectivePlateSmoother.smooth_plates", R + "PlatePermutationPlateGenerator._generate_plates", R + "PlatePermutationPlateGenerator._generate_plates@force_include",
             R + "create_random_holdout", R + "create_plate_balanced_holdout_set_among_masked_plates",
             "batchie.data.ScreenSubset.to_screen", "batchie.data.Screen.__init__"]
 LEAN = ["Batchie.scatter_count", "Batchie.filter_partition", "Batchie.rank_complement", "Batchie.rank_none_or_all"]
@@ -19,7 +19,9 @@ EXPLANATION = (
     "output = generated part (all from unobserved input rows) followed by the observed part unchanged, in order, still "
     "observed, with its plate labels; counts add up (Lean rank_complement); the input screen is returned unchanged when "
     "nothing is unobserved. PlatePermutationPlateGenerator._generate_plates proved against the abstract contract (only plate "
-    "labels are permuted; every row kept; all unobserved). Hold-out splitters (contracts/c03.py): training = rows at the "
+    "labels are permuted; every row kept; all unobserved); the same generator with plates excluded from the permutation "
+    "(force_include_plate_names non-empty, contract ...@force_include): the permuted part followed by the untouched part still has every "
+    "experiment - count kept (Lean rank_complement) and every output row is an input row. Hold-out splitters (contracts/c03.py): training = rows at the "
     "complement of the selection, hold-out = rows at the selection, column by column incl. plate labels (a partition; "
     "multiset form by Lean filter_partition), hold-out fully observed, training mask kept; create_random_holdout takes "
     "exactly ceil(fraction*size) rows (Lean scatter_count); the plate-balanced splitter takes nothing from observed plates. "
